@@ -394,3 +394,62 @@ package k8s
 //@   requires pod != nil
 //@ func getNodeAvailableResources(node, pods) (r)
 //@   requires node != nil && pods != nil && (forall s string :: has(pods, s) ==> podsOK(pods[s]))
+
+// ---------------------------------------------------------------- pod_listers.go / node_listers.go (C12, C14)
+
+// What a stored filter function answers for an object. Filters are pure; which literal a group's listers
+// store is asserted where the listers are made (controller.NewNodeGroupLister / NewDefaultNodeGroupLister),
+// and what each literal computes is C14.
+//@ spec podSel(f fn, p *v1.Pod) bool
+//@ spec nodeSel(f fn, n *v1.Node) bool
+//@ assume func apply:k8s.PodFilterFunc(f, pod) (r)
+//@   pure
+//@   ensures r == podSel(f, pod)
+//@ assume func apply:k8s.NodeFilterFunc(f, node) (r)
+//@   pure
+//@   ensures r == nodeSel(f, node)
+// the informer caches behind them: any list of non-nil objects, or an error (APx / ANx: the snapshot handed out)
+//@ ghost APb ref
+//@ ghost APo int
+//@ ghost APl int
+//@ ghost ANb ref
+//@ ghost ANo int
+//@ ghost ANl int
+//@ spec cachePods() []*v1.Pod = mkslice(APb, APo, APl, "[]*v1.Pod")
+//@ spec cacheNodes() []*v1.Node = mkslice(ANb, ANo, ANl, "[]*v1.Node")
+//@ iface k8s.io/client-go/listers/core/v1.PodLister.List(l, selector) (ret, err)
+//@   modifies APb, APo, APl
+//@   ensures err == nil ==> APb == base(ret) && APo == off(ret) && APl == len(ret) && (forall i :: 0 <= i && i < len(ret) ==> ret[i] != nil)
+//@ iface k8s.io/client-go/listers/core/v1.NodeLister.List(l, selector) (ret, err)
+//@   modifies ANb, ANo, ANl
+//@   ensures err == nil ==> ANb == base(ret) && ANo == off(ret) && ANl == len(ret) && (forall i :: 0 <= i && i < len(ret) ==> ret[i] != nil)
+
+// C12/C14: a group's lister returns exactly the objects of the cache snapshot that its stored filter selects:
+// nothing else, nothing selected left out, each once and in cache order (strictly increasing positions).
+//@ spec podAt(r []*v1.Pod, i int, j int) bool = 0 <= j && j < APl && r[i] == cachePods()[j]
+//@ func (*FilteredPodsLister).List(lister) (r, err)
+//@   requires lister != nil && lister.podLister != nil && lister.filterFunc != nil
+//@   modifies APb, APo, APl
+//@   ensures err == nil ==> (forall i :: 0 <= i && i < len(r) ==> r[i] != nil && podSel(lister.filterFunc, r[i]))
+//@   ensures [C12,C14] err == nil ==> (forall i :: 0 <= i && i < len(r) ==> (exists j :: podAt(r, i, j)))
+//@   ensures [C12,C14] err == nil ==> (forall j :: 0 <= j && j < APl && podSel(lister.filterFunc, cachePods()[j]) ==> (exists i :: 0 <= i && i < len(r) && r[i] == cachePods()[j]))
+//@   ensures err == nil ==> base(r) == nil || fresh(base(r))
+//@ loop #0
+//@   modifies elems(filteredPods)
+//@   invariant base(filteredPods) == entry(base(filteredPods)) && off(filteredPods) == 0 && cap(filteredPods) == entry(cap(filteredPods)) && len(filteredPods) <= #i
+//@   invariant forall i :: 0 <= i && i < len(filteredPods) ==> filteredPods[i] != nil && podSel(lister.filterFunc, filteredPods[i])
+//@   invariant [C12,C14] forall i :: 0 <= i && i < len(filteredPods) ==> (exists j :: 0 <= j && j < #i && filteredPods[i] == cachePods()[j])
+//@   invariant [C12,C14] forall j :: 0 <= j && j < #i && podSel(lister.filterFunc, cachePods()[j]) ==> (exists i :: 0 <= i && i < len(filteredPods) && filteredPods[i] == cachePods()[j])
+//@ func (*FilteredNodesLister).List(lister) (r, err)
+//@   requires lister != nil && lister.nodeLister != nil && lister.filterFunc != nil
+//@   modifies ANb, ANo, ANl
+//@   ensures err == nil ==> (forall i :: 0 <= i && i < len(r) ==> r[i] != nil && nodeSel(lister.filterFunc, r[i]))
+//@   ensures [C12,C14] err == nil ==> (forall i :: 0 <= i && i < len(r) ==> (exists j :: 0 <= j && j < ANl && r[i] == cacheNodes()[j]))
+//@   ensures [C12,C14] err == nil ==> (forall j :: 0 <= j && j < ANl && nodeSel(lister.filterFunc, cacheNodes()[j]) ==> (exists i :: 0 <= i && i < len(r) && r[i] == cacheNodes()[j]))
+//@   ensures err == nil ==> base(r) == nil || fresh(base(r))
+//@ loop #0
+//@   invariant base(filteredNodes) == nil || birth(base(filteredNodes)) >= entry(now)
+//@   invariant len(filteredNodes) <= #i
+//@   invariant forall i :: 0 <= i && i < len(filteredNodes) ==> filteredNodes[i] != nil && nodeSel(lister.filterFunc, filteredNodes[i])
+//@   invariant [C12,C14] forall i :: 0 <= i && i < len(filteredNodes) ==> (exists j :: 0 <= j && j < #i && filteredNodes[i] == cacheNodes()[j])
+//@   invariant [C12,C14] forall j :: 0 <= j && j < #i && nodeSel(lister.filterFunc, cacheNodes()[j]) ==> (exists i :: 0 <= i && i < len(filteredNodes) && filteredNodes[i] == cacheNodes()[j])
